@@ -294,6 +294,7 @@ def main(argv=None):
     ap.add_argument("--no-shrink", action="store_true")
     a = ap.parse_args(argv)
     pid = a.pid.upper()
+    os.environ['PBT_TIER'] = a.tier
     seed = int(os.environ.get("VERIF_SEED", "1") or 1)
     t0 = time.time()
     try:
